@@ -194,21 +194,27 @@ def wrapped(ck, tier, cand):
     tmp = tempfile.mkdtemp(prefix="c11_", dir=vlib.BUILD)
     n = 0
     try:
+        # the tag filter must hold whatever else is configured on the rule objects
+        cfgs = [None, "rule:\n  global:\n    user_error_message: 'see the coding guideline'\n", "rule:\n  global:\n    severity: Warning\n    indent_size: 3\n"]
+        for ci, ctext in enumerate(cfgs):
+            if ctext:
+                open(os.path.join(tmp, "g%d.yaml" % ci), "w").write(ctext)
         for i, (path, lines) in enumerate(cand):
             dst = os.path.join(tmp, "w%d.vhd" % i)
             body = ["-- vsg_off"] + lines
             with open(dst, "w") as f:
                 f.write("\n".join(body) + "\n")
             jf = dst + ".json"
-            rc, out = vlib.sh(vlib.vsg_cmd() + ["-f", dst, "-ap", "--json", jf], env=vlib.repo_env(), timeout=600)
+            cargs = ["-c", os.path.join(tmp, "g%d.yaml" % (i % len(cfgs)))] if cfgs[i % len(cfgs)] else []
+            rc, out = vlib.sh(vlib.vsg_cmd() + ["-f", dst, "-ap", "--json", jf] + cargs, env=vlib.repo_env(), timeout=600)
             rel = os.path.relpath(path, vlib.REPO)
             try:
                 nv = sum(len(fe["violations"]) for fe in json.load(open(jf))["files"])
             except Exception:
                 nv = -1
             if rc != 0 or nv != 0:
-                ck.violation("wrapped:report-not-empty", "%s wrapped in a bare vsg_off: exit %d, %d violations" % (rel, rc, nv), {"kind": "input", "oracle": "wrapped", "file": rel})
-            rc, out = vlib.sh(vlib.vsg_cmd() + ["-f", dst, "--fix"], env=vlib.repo_env(), timeout=600)
+                ck.violation("wrapped:report-not-empty", "%s wrapped in a bare vsg_off%s: exit %d, %d violations" % (rel, " under " + repr(cfgs[i % len(cfgs)]) if cargs else "", rc, nv), {"kind": "input", "oracle": "wrapped", "file": rel})
+            rc, out = vlib.sh(vlib.vsg_cmd() + ["-f", dst, "--fix"] + cargs, env=vlib.repo_env(), timeout=600)
             after = open(dst).read().split("\n")
             exp = [l.rstrip() for l in body] + [""]
             if after != exp:
